@@ -875,6 +875,21 @@ def gen_case(rng, opts=None):
         fam = [x["num"] for x in surfs if x["mn"] in ARITY]
         for n in rng.sample(fam, min(len(fam), rng.choice([1, 1, 2, 3]))):
             pre.append([rng.choice(["set_refl", "set_white"]), n, rng.random() < 0.85])
+    if o["pre"] and not two_stage and not pre and trnums and rng.random() < 0.2:
+        # nothing but a transform reassigned through the API between the read and the call (no write in between):
+        # surfaces of one family whose file-time transform numbers are equal (the same TR card, or none) get
+        # different live transforms - the numbers remembered from the file are stale from then on
+        groups = {}
+        for x in surfs:
+            if x["mn"] in ARITY and not x["per"]:
+                groups.setdefault((x["mn"], x["tr"]), []).append(x)
+        cands = [g for g in groups.values() if len(g) >= 2]
+        for g in rng.sample(cands, min(len(cands), rng.choice([1, 1, 2]))):
+            x = rng.choice(g)
+            others = [t for t in trnums if t != x["tr"]]
+            far = [t for t in others if x["tr"] is None or root[t] != root[x["tr"]]]
+            if others:
+                pre.append(["set_tr", x["num"], rng.choice(far or others)])
     if two_stage:
         nb = [x["num"] for x in surfs if x.get("stage") == "B"][0]
         pre = [[rng.choice(["geom_and", "geom_or"]), rng.choice(cnums), nb, rng.random() < 0.5],
